@@ -7,7 +7,9 @@ import (
 	"context"
 	"fmt"
 	"os"
+	"path"
 	"reflect"
+	"sort"
 	"sync"
 	"testing"
 
@@ -140,7 +142,7 @@ func checkCutFile(d *kit.Doc, ref, got *zoekt.FileMatch, chunk bool, k int, mayC
 }
 
 // checkPrefix: got is the beginning of the unlimited ranked result ref.
-func checkPrefix(docs map[string]*kit.Doc, ref, got []zoekt.FileMatch, c *c22Case, what string) (cutInside bool, err error) {
+func checkPrefix(docs map[string]*kit.Doc, ref, got []zoekt.FileMatch, c *c22Case, what string, oneShot func() []zoekt.FileMatch) (cutInside bool, err error) {
 	if c.MaxDocs > 0 && len(got) > c.MaxDocs {
 		return false, kit.Fail("too-many-files", "%s: %d files returned with MaxDocDisplayCount=%d", what, len(got), c.MaxDocs)
 	}
@@ -166,11 +168,6 @@ func checkPrefix(docs map[string]*kit.Doc, ref, got []zoekt.FileMatch, c *c22Cas
 			return false, kit.Fail("not-a-prefix", "%s: file %s at position %d is not in the unlimited result (or returned twice)", what, got[i].FileName, i)
 		}
 		seen[k] = true
-		// tie-tolerant position check: the score at position i must be the
-		// unlimited ranking's score at position i
-		if got[i].Score != ref[i].Score {
-			return false, kit.Fail("not-the-top", "%s: position %d holds %s (score %v) but the unlimited ranking has %s (score %v) there; limited %v, unlimited %v", what, i, got[i].FileName, got[i].Score, ref[i].FileName, ref[i].Score, scoresOf(got), scoresOf(ref))
-		}
 		cut, err := checkCutFile(docs[k], r, &got[i], c.Chunk, c.Context, i == len(got)-1)
 		if err != nil {
 			if d, ok := err.(*kit.Discrepancy); ok {
@@ -182,6 +179,27 @@ func checkPrefix(docs map[string]*kit.Doc, ref, got []zoekt.FileMatch, c *c22Cas
 			cutInside = true
 		}
 	}
+	// The returned files must be the top of the ranking. Equal scores may be
+	// ordered either way, and the order of ties decides which file the
+	// novel-extension promotion picks, so "the" unlimited ranking is only
+	// defined up to that. Tolerant formulation: the result has the shape of a
+	// ranking (non-increasing scores except for one promoted file in third
+	// place), and its scores are the k best scores of the unlimited result -
+	// or, when a promoted file is visible, that file plus the k-1 best scores.
+	if _, err := checkFileOrder(got, what); err != nil {
+		return false, err
+	}
+	if !validTop(ref, got) {
+		known := ""
+		// Attribute to the incremental truncation of partial aggregates only if
+		// ranking and truncating all per-shard results at once gives a valid top.
+		if oneShot != nil {
+			if alt := oneShot(); validTop(ref, alt) {
+				known = "C22-partial-aggregate-truncation"
+			}
+		}
+		return false, kit.FailKnown(known, "not-the-top", "%s: the returned files are not the beginning of any ranking of the unlimited result: limited %v, unlimited %v", what, scoresOf(got), scoresOf(ref))
+	}
 	// maximal: stopping early needs a reached limit
 	if len(got) < len(ref) {
 		docReached := c.MaxDocs > 0 && len(got) == c.MaxDocs
@@ -191,6 +209,64 @@ func checkPrefix(docs map[string]*kit.Doc, ref, got []zoekt.FileMatch, c *c22Cas
 		}
 	}
 	return cutInside, nil
+}
+
+func sortedScores(fs []zoekt.FileMatch, skip int) []float64 {
+	var out []float64
+	for i := range fs {
+		if i != skip {
+			out = append(out, fs[i].Score)
+		}
+	}
+	sort.Sort(sort.Reverse(sort.Float64Slice(out)))
+	return out
+}
+
+// validTop reports whether got can be the first len(got) files of a ranking
+// of ref: files sorted by non-increasing score - files with equal scores in
+// any order - followed by the documented promotion of the first file with a
+// novel extension (and at least 0.9 x the score of the file it displaces)
+// into third place.
+func validTop(ref, got []zoekt.FileMatch) bool {
+	k := len(got)
+	if k == 0 {
+		return true
+	}
+	best := sortedScores(ref, -1)
+	eq := func(a, b []float64) bool { return fmt.Sprint(a) == fmt.Sprint(b) }
+	// no promotion among the first k
+	if eq(sortedScores(got, -1), best[:k]) {
+		return true
+	}
+	if k < 3 || len(ref) < 4 {
+		return false
+	}
+	// got[2] was promoted
+	p := got[2]
+	if !eq(sortedScores(got, 2), best[:k-1]) {
+		return false
+	}
+	e0, e1, ep := path.Ext(got[0].FileName), path.Ext(got[1].FileName), path.Ext(p.FileName)
+	if ep == e0 || ep == e1 {
+		return false
+	}
+	if p.Score < 0.9*best[2] {
+		return false
+	}
+	// no better-scoring candidate with a novel extension was passed over
+	k0 := kit.Key(got[0].Repository, got[0].FileName, got[0].Checksum)
+	k1 := kit.Key(got[1].Repository, got[1].FileName, got[1].Checksum)
+	for i := range ref {
+		f := &ref[i]
+		kf := kit.Key(f.Repository, f.FileName, f.Checksum)
+		if kf == k0 || kf == k1 || f.Score <= p.Score {
+			continue
+		}
+		if e := path.Ext(f.FileName); e != e0 && e != e1 {
+			return false
+		}
+	}
+	return true
 }
 
 func runC22(rec *kit.Recorder, c c22Case) error {
@@ -254,20 +330,38 @@ func runC22(rec *kit.Recorder, c c22Case) error {
 		}
 		got := search.VerifAggregate(&lim, ordered)
 		what := fmt.Sprintf("query %s docs=%d matches=%d chunk=%v ctx=%d", q, c.MaxDocs, c.MaxMatches, c.Chunk, c.Context)
-		cutInside, err := checkPrefix(docs, ref.Files, got.Files, &c, what+" (aggregation)")
+		oneShot := func() []zoekt.FileMatch {
+			fresh, err := perShard(e.built.Shards, q, lim)
+			if err != nil {
+				return nil
+			}
+			var all []zoekt.FileMatch
+			for _, r := range fresh {
+				all = append(all, r.Files...)
+			}
+			l := lim
+			return index.SortAndTruncateFiles(all, &l)
+		}
+		cutInside, err := checkPrefix(docs, ref.Files, got.Files, &c, what+" (aggregation)", oneShot)
 		if err != nil {
 			return err
 		}
 		nt := cutInside
 		anyNT = anyNT || nt
 
-		// end to end: non-streaming Search must obey the same contract
-		o := lim
+		// end to end: non-streaming Search must obey the same contract with
+		// respect to its own unlimited result
+		o := unl
+		sref, err := e.dir.Search(context.Background(), q, &o)
+		if err != nil {
+			return kit.Fail("search-error", "%s: %v", what, err)
+		}
+		o = lim
 		sres, err := e.dir.Search(context.Background(), q, &o)
 		if err != nil {
 			return kit.Fail("search-error", "%s: %v", what, err)
 		}
-		if _, err := checkPrefix(docs, ref.Files, sres.Files, &c, what+" (Search)"); err != nil {
+		if _, err := checkPrefix(docs, sref.Files, sres.Files, &c, what+" (Search)", oneShot); err != nil {
 			return err
 		}
 		// streaming: counts within limits, every file from the unlimited result, only cut as a prefix
@@ -282,7 +376,7 @@ func runC22(rec *kit.Recorder, c c22Case) error {
 		if err != nil {
 			return kit.Fail("search-error", "%s (stream): %v", what, err)
 		}
-		if err := checkStream(docs, ref.Files, streamed, &c, what+" (StreamSearch)"); err != nil {
+		if err := checkStream(docs, sref.Files, streamed, &c, what+" (StreamSearch)"); err != nil {
 			return err
 		}
 		rec.Eval(ckey+fmt.Sprintf("|%+v|%d|%d|%v|%d|%v", qs, c.MaxDocs, c.MaxMatches, c.Chunk, c.Context, c.Order), nt,
@@ -336,7 +430,7 @@ var _ = index.SortFiles
 func TestVerif_C22(t *testing.T) {
 	rec := kit.Open(t, "C22",
 		"C01 corpora (several shards) and query batches x MaxDocDisplayCount in {0,1,2,3,5} x MaxMatchDisplayCount in {0,1,2,3,4,7} x line/chunk mode x 0-5 context lines x a generated arrival order of the per-shard results; the per-shard results are fed through the searcher's own aggregation (sendByRepository -> collectSender) in that order; the same contract is checked end to end on Search, and event-wise (counts, integrity, single cut) on StreamSearch; non-trivial = the cut falls inside a file with >= 2 chunks / line matches; distinct by hash",
-		"the unlimited ranked result is the same aggregation without limits; positions are compared by score (tie-tolerant)",
+		"the unlimited ranked result is the same aggregation without limits; files with equal scores may be ordered either way (which also decides the novel-extension promotion), so the returned files must be the beginning of some ranking of the unlimited result: sorted by score with ties in any order, then the documented promotion",
 		"stopping before the unlimited result is exhausted requires a reached limit",
 		"StreamSearch has no global ranking across flushes: only counts, membership and prefix-cuts are checked there",
 	)
